@@ -38,6 +38,11 @@ type Opts struct {
 	Boundary     bool // explicit boundary values of styles (0, maxima, false) on shapes and connections
 	EdgeLinks    bool // links (with metacharacters when Tricky) and tooltips on labelled connections
 	Label3D      bool // 3d / multiple shapes with every outside label and icon position
+	// third-generation options (mode text3), same rule
+	Tables      bool // sql_table and class shapes: columns / fields named like other objects, connections to columns, fields and methods
+	EdgeKeys    bool // connection references in every form: (a -> b).k, (a -> b)[i].k, c.(x -> y)[i].k, (a -> b)[*].k, with maps and flat keys
+	BlockBlank  bool // block strings (markdown, code, latex-free) with whitespace-only lines, tabs and deeper indentation
+	EmptyBoards bool // scenarios / steps / layers declared with an empty map, with a label and an empty map, or without a map
 }
 
 type ObjMeta struct {
@@ -505,6 +510,174 @@ func (x *g) near(ind string) {
 	x.d.Feats = append(x.d.Feats, "near")
 }
 
+// tables writes sql_table and class shapes. Their columns, fields and methods are not objects of the diagram, also when
+// they are named like one, and a connection to one of them is a connection to the shape.
+func (x *g) tables(tops, ids []string) {
+	colTypes := []string{"int", "varchar(255)", "string", `"timestamp with time zone"`, "void"}
+	other := func() string { // a name some other object of the diagram already has (its last segment), else a plain one
+		if len(ids) > 0 && x.p(50) {
+			id := x.pick(ids)
+			if i := strings.LastIndex(id, "."); i >= 0 && !strings.Contains(id, `"`) {
+				return id[i+1:]
+			}
+			if !strings.Contains(id, ".") && !strings.Contains(id, `"`) {
+				return id
+			}
+		}
+		return x.pick([]string{"id", "name", "a", "b", "tbl0", "cls0", "x y"})
+	}
+	ind, pre := "", ""
+	if x.p(30) {
+		ind, pre = "  ", "box."
+		x.sb.WriteString("box: {\n")
+	}
+	var ends []string
+	if x.p(70) {
+		fmt.Fprintf(&x.sb, "%stbl0: %s{\n%s  shape: sql_table\n", ind, x.pick([]string{"", "users ", ""}), ind)
+		for k := 1 + x.r.Intn(4); k > 0; k-- {
+			c := other()
+			if strings.Contains(c, " ") {
+				c = `"` + c + `"`
+			}
+			fmt.Fprintf(&x.sb, "%s  %s: %s", ind, c, x.pick(colTypes))
+			if x.p(30) {
+				fmt.Fprintf(&x.sb, " {constraint: %s}", x.pick([]string{"primary_key", "foreign_key", "unique", "[primary_key; unique]"}))
+			}
+			x.sb.WriteString("\n")
+			ends = append(ends, pre+"tbl0."+c)
+		}
+		fmt.Fprintf(&x.sb, "%s}\n", ind)
+		ends = append(ends, pre+"tbl0", pre+"tbl0.nocolumn")
+		x.d.Objs = append(x.d.Objs, ObjMeta{ID: pre + "tbl0", Shape: "sql_table"})
+	}
+	if x.p(70) {
+		fmt.Fprintf(&x.sb, "%scls0: {\n%s  shape: class\n", ind, ind)
+		for k := 1 + x.r.Intn(4); k > 0; k-- {
+			c := other()
+			if strings.Contains(c, " ") {
+				c = `"` + c + `"`
+			}
+			switch x.r.Intn(3) {
+			case 0:
+				fmt.Fprintf(&x.sb, "%s  %s: %s\n", ind, c, x.pick(colTypes))
+			case 1:
+				fmt.Fprintf(&x.sb, "%s  %s%s(%s): %s\n", ind, x.pick([]string{"+", "-", "\\#", ""}), strings.Trim(c, `"`+" "), x.pick([]string{"", "a int", "a, b"}), x.pick(colTypes))
+			case 2:
+				fmt.Fprintf(&x.sb, "%s  %s\n", ind, c)
+			}
+			ends = append(ends, pre+"cls0."+c)
+		}
+		fmt.Fprintf(&x.sb, "%s}\n", ind)
+		ends = append(ends, pre+"cls0", pre+"cls0.nofield")
+		x.d.Objs = append(x.d.Objs, ObjMeta{ID: pre + "cls0", Shape: "class"})
+	}
+	if ind != "" {
+		x.sb.WriteString("}\n")
+	}
+	all := append(append([]string{}, ends...), tops...)
+	for k := x.r.Intn(4); k > 0 && len(ends) > 0; k-- {
+		a, b := x.pick(ends), x.pick(all)
+		if x.p(50) {
+			a, b = b, a
+		}
+		if strings.Contains(a, "(") || strings.Contains(b, "(") || strings.Contains(a, "#") || strings.Contains(b, "#") {
+			continue
+		}
+		fmt.Fprintf(&x.sb, "%s %s %s\n", a, x.pick([]string{"->", "<-", "--", "<->"}), b)
+		x.d.NEdges++
+	}
+	x.d.Feats = append(x.d.Feats, "tables")
+}
+
+// edgeKeys declares connections and then refers to them in every form the language has.
+func (x *g) edgeKeys(ids []string) {
+	var plain []string
+	for _, id := range ids {
+		if !strings.Contains(id, `"`) && !strings.Contains(id, ".") {
+			plain = append(plain, id)
+		}
+	}
+	if len(plain) < 2 {
+		plain = append(plain, "ek0", "ek1")
+	}
+	arrows := []string{"->", "<-", "--", "<->"}
+	attrs := []string{"label: hi", "style.stroke: red", "style.opacity: 0.4", "style.animated: true", "target-arrowhead.shape: diamond", "source-arrowhead.label: 1", "target-arrowhead: many {shape: cf-many}", "style.stroke-width: 3", "label: \"two words\""}
+	for k := 1 + x.r.Intn(3); k > 0; k-- {
+		a, b, ar := x.pick(plain), x.pick(plain), x.pick(arrows)
+		if a == b {
+			continue
+		}
+		n := 1 + x.r.Intn(2)
+		for i := 0; i < n; i++ {
+			fmt.Fprintf(&x.sb, "%s %s %s\n", a, ar, b)
+			x.d.NEdges++
+		}
+		for j := 1 + x.r.Intn(3); j > 0; j-- {
+			at := x.pick(attrs)
+			switch x.r.Intn(6) {
+			case 0: // a new connection declared in the group form
+				fmt.Fprintf(&x.sb, "(%s %s %s).%s\n", a, ar, b, at)
+				x.d.NEdges++
+			case 1:
+				fmt.Fprintf(&x.sb, "(%s %s %s)[%d].%s\n", a, ar, b, x.r.Intn(n), at)
+			case 2:
+				fmt.Fprintf(&x.sb, "(%s %s %s)[*].%s\n", a, ar, b, at)
+			case 3:
+				fmt.Fprintf(&x.sb, "(%s %s %s)[%d]: {\n  %s\n}\n", a, ar, b, x.r.Intn(n), at)
+			case 4:
+				fmt.Fprintf(&x.sb, "(%s %s %s): {%s}\n", a, ar, b, at)
+				x.d.NEdges++
+			case 5:
+				fmt.Fprintf(&x.sb, "(%s %s *)[*].%s\n", a, ar, at)
+			}
+		}
+	}
+	if x.p(40) { // inside a container, referred to from outside with a key prefix
+		fmt.Fprintf(&x.sb, "ekbox: {\n  p %s q\n  (p %s q).label: inner\n}\n", "->", "->")
+		fmt.Fprintf(&x.sb, "ekbox.(p -> q)[%d].%s\n", x.r.Intn(2), x.pick(attrs))
+		x.d.NEdges += 2
+	}
+	x.d.Feats = append(x.d.Feats, "edge-keys")
+}
+
+// blockBlank writes block strings whose lines include whitespace-only ones
+func (x *g) blockBlank() {
+	blanks := []string{"", "  ", "    ", "\t", "  \t", "      "}
+	langs := []string{"md", "go", "py", "txt", "", "`md", "|md"}
+	ind := ""
+	if x.p(40) {
+		ind = "  "
+		x.sb.WriteString("bbox: {\n")
+	}
+	for k := 1 + x.r.Intn(2); k > 0; k-- {
+		lang := x.pick(langs)
+		open, close := "|"+lang, "|"
+		if strings.HasPrefix(lang, "`") {
+			open, close = "|`"+lang[1:], "`|"
+		} else if strings.HasPrefix(lang, "|") {
+			open, close = "||"+lang[1:], "||"
+		}
+		fmt.Fprintf(&x.sb, "%sblk%d: %s\n", ind, k, open)
+		lines := []string{"first line", "  indented more", "last line", "func main() {", "}", "# title"}
+		if close != "|" {
+			lines = append(lines, "a | b")
+		}
+		fmt.Fprintf(&x.sb, "%s  %s\n", ind, x.pick(lines))
+		for n := 1 + x.r.Intn(4); n > 0; n-- {
+			if x.p(45) {
+				fmt.Fprintf(&x.sb, "%s\n", x.pick(blanks))
+			} else {
+				fmt.Fprintf(&x.sb, "%s  %s\n", ind, x.pick(lines))
+			}
+		}
+		fmt.Fprintf(&x.sb, "%s%s\n", ind, close)
+	}
+	if ind != "" {
+		x.sb.WriteString("}\n")
+	}
+	x.d.Feats = append(x.d.Feats, "block-blank")
+}
+
 // boardsBlock returns a layers/scenarios/steps block; where it is placed relative to the other
 // declarations matters for scenarios and steps (they inherit what was declared before them).
 func (x *g) boardsBlock(tops []string) string {
@@ -513,6 +686,10 @@ func (x *g) boardsBlock(tops []string) string {
 	kd := x.pick(kinds)
 	fmt.Fprintf(&sb, "%s: {\n", kd)
 	for i := 0; i < 1+x.r.Intn(2); i++ {
+		if x.o.EmptyBoards && x.p(50) {
+			fmt.Fprintf(&sb, "  e%d%s\n", i, x.pick([]string{": {}", ": {\n  }", ": Empty {}", "", ": Label"}))
+			x.d.Feats = append(x.d.Feats, "empty-boards")
+		}
 		fmt.Fprintf(&sb, "  b%d: {\n    extra%d: %s\n", i, i, x.pick(plainLabels))
 		if len(tops) > 0 && kd != "layers" && x.p(50) {
 			fmt.Fprintf(&sb, "    %s.style.opacity: 0.5\n", tops[0])
@@ -590,6 +767,15 @@ func Generate(r *rand.Rand, o Opts) *Diagram {
 			}
 		}
 		x.d.Feats = append(x.d.Feats, "cross-edges")
+	}
+	if o.Tables && x.p(60) {
+		x.tables(tops, ids)
+	}
+	if o.EdgeKeys && x.p(60) {
+		x.edgeKeys(ids)
+	}
+	if o.BlockBlank && x.p(50) {
+		x.blockBlank()
 	}
 	if o.Markdown && x.p(30) {
 		x.sb.WriteString("mdnote: |md\n  # Title\n  Some *markdown* with `code` and a [link](https://example.com).\n|\n")
